@@ -117,7 +117,7 @@ pub enum CircuitError {
 impl Circuit {
     /// Checks that the circuit only has valid instructions, has inputs andoutputs.
     pub fn validate(&self) -> Result<(), CircuitError> {
-        let max_reg = Reg(self.max_reg_count.saturating_sub(1) as u32);
+        let is_valid_reg = |r: Reg| (r.0 as usize) < self.max_reg_count;
         if self.input_regs.iter().all(|i| *i == 0) {
             return Err(CircuitError::EmptyInputs);
         }
@@ -126,7 +126,7 @@ impl Circuit {
             return Err(CircuitError::EmptyOutputs);
         }
         for &o in self.output_regs.iter() {
-            if o > max_reg {
+            if !is_valid_reg(o) {
                 return Err(CircuitError::InvalidOutput(o));
             }
         }
@@ -136,7 +136,7 @@ impl Circuit {
 
         let mut register_set = vec![false; self.max_reg_count];
         for (i, inst) in self.insts.iter().enumerate() {
-            if inst.out > max_reg {
+            if !is_valid_reg(inst.out) {
                 return Err(CircuitError::InvalidInst(i));
             }
             match inst.op {
@@ -146,18 +146,18 @@ impl Circuit {
                     }
                 }
                 Op::Xor(Xor(x, y)) | Op::And(And(x, y)) => {
-                    if x > max_reg || y > max_reg {
+                    if !is_valid_reg(x) || !is_valid_reg(y) {
                         return Err(CircuitError::InvalidInst(i));
                     }
                     if !register_set[x] {
                         return Err(CircuitError::InvalidRegAccess(i, x));
                     }
                     if !register_set[y] {
-                        return Err(CircuitError::InvalidRegAccess(i, x));
+                        return Err(CircuitError::InvalidRegAccess(i, y));
                     }
                 }
                 Op::Not(Not(x)) => {
-                    if x > max_reg {
+                    if !is_valid_reg(x) {
                         return Err(CircuitError::InvalidInst(i));
                     }
                     if !register_set[x] {
